@@ -34,7 +34,7 @@ pub fn run(rep: &mut Report, thorough: bool) {
     let ntargets = if thorough { 20 } else { 3 };
     let per_target = if thorough { 20 } else { 8 };
     for ti in 0..ntargets {
-        let cfg = TargetCfg { sentinels: 1 + ti % 4, max_spinners: 0, heartbeats: 0, sleepers: ti % 2, exiters: 0, names: true, regions: 3, elf_files: ti % 2, fds: 3, stack_pages_max: 2, null_sp_threads: 0 };
+        let cfg = TargetCfg { sentinels: 1 + ti % 4, max_spinners: 0, heartbeats: 0, sleepers: ti % 2, exiters: 0, names: true, regions: 3, elf_files: ti % 2, fds: 3, stack_pages_max: 2, null_sp_threads: 0, big_region_pages: 600 };
         let sc = match scen::build_target(&mut rng, &cfg) {
             Ok(s) => s,
             Err(e) => {
@@ -46,6 +46,13 @@ pub fn run(rep: &mut Report, thorough: bool) {
             let bits = if k == 0 { 0 } else { rng.below(128) as u32 };
             let knobs = OptKnobs::from_bits(bits, &mut rng);
             let mut o = scen::random_opts(&mut rng, &sc, &knobs);
+            // one dump per target carries more than 1 MiB in a single flush (application memory)
+            if k == 1 {
+                if let Some(&(a, l)) = sc.pattern_regions.iter().find(|(_, l)| *l >= (2 << 20)) {
+                    o.app_memory.push((a + 4096, l - 8192));
+                    o.app_memory.push((a, 1 << 20));
+                }
+            }
             if k % 5 == 4 {
                 o.direct_auxv = Some([3, 0x1000, 0, 0]); // dso-debug fails softly
             }
@@ -151,7 +158,7 @@ pub fn run_c09_live(rep: &mut Report, thorough: bool) {
     let ntargets = if thorough { 12 } else { 2 };
     let per_target = if thorough { 40 } else { 20 };
     for ti in 0..ntargets {
-        let cfg = TargetCfg { sentinels: 1 + ti % 3, max_spinners: 0, heartbeats: 0, sleepers: 0, exiters: 0, names: true, regions: 2, elf_files: 0, fds: 2, stack_pages_max: 2, null_sp_threads: 0 };
+        let cfg = TargetCfg { sentinels: 1 + ti % 3, max_spinners: 0, heartbeats: 0, sleepers: 0, exiters: 0, names: true, regions: 2, elf_files: 0, fds: 2, stack_pages_max: 2, null_sp_threads: 0, big_region_pages: 0 };
         let sc = match scen::build_target(&mut rng, &cfg) {
             Ok(s) => s,
             Err(e) => {
